@@ -1,9 +1,11 @@
 package main
 
 import (
+	"encoding/json"
 	"fmt"
 	"math/bits"
 	"sort"
+	"strings"
 
 	"github.com/esimov/gogu/btree"
 	"verif/core"
@@ -185,8 +187,123 @@ func btreeOrders(rep *core.Report) {
 		}
 		check(order, false)
 	}
+	// Run-structured insertion orders: every order that consists of r monotone runs over disjoint key
+	// intervals — every combination of run lengths 1..L, run directions (ascending/descending) and
+	// relative position of the intervals. These reach the node-filling patterns (append-filled,
+	// prepend-filled, filled from the middle) that decide how splits cascade, with far more keys than
+	// all-permutations can afford. Height is checked on every prefix, the full suite at the end.
+	type fam struct{ r, L int }
+	fams := []fam{{2, 48}, {3, 12}}
+	if thorough {
+		fams = []fam{{2, 100}, {3, 22}, {4, 8}}
+	}
+	runOrders := 0
+	for _, f := range fams {
+		lens := make([]int, f.r)
+		var perms [][]int
+		var pr func(cur []int, used int)
+		pr = func(cur []int, used int) {
+			if len(cur) == f.r {
+				perms = append(perms, append([]int{}, cur...))
+				return
+			}
+			for i := 0; i < f.r; i++ {
+				if used&(1<<i) == 0 {
+					pr(append(cur, i), used|1<<i)
+				}
+			}
+		}
+		pr(nil, 0)
+		var recL func(i int)
+		recL = func(i int) {
+			if i < f.r {
+				for l := 1; l <= f.L; l++ {
+					lens[i] = l
+					recL(i + 1)
+				}
+				return
+			}
+			for _, pm := range perms { // pm[j] = rank of run j's key interval
+				// interval start of run j = sum of lengths of the runs whose interval ranks lower
+				for dirs := 0; dirs < 1<<f.r; dirs++ {
+					var order []int
+					for j := 0; j < f.r; j++ {
+						base := 0
+						for k := 0; k < f.r; k++ {
+							if pm[k] < pm[j] {
+								base += lens[k]
+							}
+						}
+						for x := 0; x < lens[j]; x++ {
+							if dirs&(1<<j) == 0 {
+								order = append(order, base+x)
+							} else {
+								order = append(order, base+lens[j]-1-x)
+							}
+						}
+					}
+					runOrders++
+					t := btree.New[int, string]()
+					model := map[int]string{}
+					for i, k := range order {
+						t.Put(k, "a")
+						model[k] = "a"
+						trans++
+						if bound := bits.Len(uint(i+1)) - 1; t.Height() > bound {
+							rep.Add("BTree.Height/exceeds-log2/run-structured-orders", fmt.Sprintf("Height = %d > floor(log2(%d)) = %d after inserting %v", t.Height(), i+1, bound, order[:i+1]), fmt.Sprintf("Put in order %v", order[:i+1]), map[string]any{"engine": "btree-orders", "order": order[:i+1]})
+							break
+						}
+						if t.Height() > maxH {
+							maxH = t.Height()
+						}
+					}
+					btreeObserve("BTree", t, model, len(model), -1, len(order), func(key, format string, a ...any) {
+						rep.Add(key+"/run-structured-orders", fmt.Sprintf(format, a...), fmt.Sprintf("Put in order %v", order), map[string]any{"engine": "btree-orders", "order": order})
+					})
+					if runOrders%20000 == 1 {
+						rep.Sample(fmt.Sprintf("BTree Put order (%d runs) %v", f.r, order))
+					}
+				}
+			}
+		}
+		recL(0)
+	}
+	rep.Set("run_structured_insertion_orders", runOrders)
 	rep.Inc("transitions", trans)
 	rep.Inc("traces_validated_against_impl", trans)
 	rep.Set("insertion_orders", count)
 	rep.Set("max_height_seen", maxH)
+}
+
+func init() {
+	extraReplay["C10"] = func(key string, raw json.RawMessage) int {
+		var r struct {
+			Engine string `json:"engine"`
+			Order  []int  `json:"order"`
+		}
+		if json.Unmarshal(raw, &r) != nil || r.Engine != "btree-orders" {
+			return 2
+		}
+		t := btree.New[int, string]()
+		model := map[int]string{}
+		hit := false
+		fmt.Printf("replay BTree Put in order %v\n", r.Order)
+		for i, k := range r.Order {
+			t.Put(k, "a")
+			model[k] = "a"
+			if bound := bits.Len(uint(i+1)) - 1; t.Height() > bound {
+				fmt.Printf("  FAIL BTree.Height/exceeds-log2: Height = %d > floor(log2(%d)) = %d after %d insertions\n", t.Height(), i+1, bound, i+1)
+				hit = hit || strings.HasPrefix(key, "BTree.Height/exceeds-log2")
+			}
+		}
+		btreeObserve("BTree", t, model, len(model), -1, len(r.Order), func(k, format string, a ...any) {
+			fmt.Printf("  FAIL %s: %s\n", k, fmt.Sprintf(format, a...))
+			hit = hit || strings.HasPrefix(key, k)
+		})
+		if hit {
+			return 1
+		}
+		fmt.Println("  not reproduced")
+		return 0
+	}
 }
